@@ -360,6 +360,11 @@ impl SmartCalc {
         }
 
         let mut tokinizer = Tokinizer::new(config, &session);
+
+        /* Calculation codes and substituted values are always written with '.' and without grouping */
+        tokinizer.decimal_seperator  = ".".to_string();
+        tokinizer.thousand_separator = String::new();
+
         if !tokinizer.basic_tokinize() {
             return Err(anyhow!("Syntax error"));
         }
